@@ -49,7 +49,7 @@ def run_scenarios(run, scenarios, limit_per_scenario, family, prefix='c07'):
         run.note('thread_programs', {n: [f"{e['op']}:{e['lock']}" for e in p] for n, p in programs.items()})
         for si, sc in enumerate(scenarios):
             progs = {i + 1: programs[n] for i, n in enumerate(sc)}
-            readers = [i + 1 for i, n in enumerate(sc) if n.startswith('R_')]
+            readers = [i + 1 for i, n in enumerate(sc) if n.startswith(('R_', 'O_'))]   # threads whose code after a release matters
             total_events = sum(len(p) for p in progs.values())
             exhaustive = total_events <= 34 and len(sc) <= 2
             scheds = enumerate_schedules(run, f'{prefix}_{si}', progs, readers,
@@ -93,7 +93,7 @@ def run_scenarios(run, scenarios, limit_per_scenario, family, prefix='c07'):
 
 
 def _strip(rec):
-    return {k: rec[k] for k in ('reads', 'phist', 'wire', 'errors')}
+    return {k: rec[k] for k in ('reads', 'phist', 'wire', 'errors', 'txids', 'txid0')}
 
 
 FAMILY = {'label_is_a_version_that_existed', 'snapshot_content', 'snapshot_selection', 'each_at_most_once',
